@@ -1,6 +1,6 @@
 """C01 — legal move generation: structural clauses C01-EP, C01-KING, C01-CASTLE, C01-FLAGS, C01-CHECK
 (DESIGN.md §3)."""
-from facts import (norm, show, walk, strip_refs, is_call_to, callee_name, find_calls, guard_conditions,
+from facts import (norm, show, walk, strip_refs, deep_strip, is_call_to, callee_name, find_calls, guard_conditions,
                    option_guard, mentions_call)
 
 EXPLANATION = (
@@ -11,7 +11,10 @@ EXPLANATION = (
     "guarded by the side's right, an empty path, king not in check, and unattacked transit and target squares, "
     "and is built from the king's start and the table's target square; (FLAGS) a Move's bits can only be what "
     "Move::new wrote from a Flags variant, the label constants are mutually consistent and the promotion tables of "
-    "writer and reader agree; (CHECK) the in-check verdict probes the mover's own king square. Not decided: "
+    "writer and reader agree; (CHECK) the in-check verdict probes the mover's own king square; (LABEL) every "
+    "capture-labelled move is drawn from a destination set intersected with the opponent's occupancy and every "
+    "quiet-labelled move from one intersected with the empty squares (pawn pushes: the squares in front); (PROMO) "
+    "each of the four promotion kinds is generated exactly once per promoting move. Not decided: "
     "completeness/exactness of pin and check-mask algebra, pawn pushes, slider rays (set equality over all positions)."
 )
 
@@ -25,6 +28,7 @@ def run(fx, rep, tier):
     rule_castle(fx, rep)
     rule_flags(fx, rep)
     rule_check(fx, rep)
+    rule_label(fx, rep)
 
 
 # ---- shared: probes ------------------------------------------------------------------------
@@ -635,6 +639,160 @@ def rule_check(fx, rep):
     rep.rule("C01-CHECK", n, 2, ok, "in-check verdict probes the mover's own king")
 
 
+# ---- C01-LABEL / C01-PROMO -------------------------------------------------------------------
+
+
+def and_factors(e):
+    """factors of a nested `&` expression (BitAnd calls), looking through iterator plumbing"""
+    e = deep_strip(e)
+    if isinstance(e, tuple) and e and e[0] == "call" and isinstance(e[1], str) and e[1].endswith("BitAnd>::bitand"):
+        return and_factors(e[2][0]) + and_factors(e[2][1])
+    return [e]
+
+
+def iter_source(e):
+    """the set a loop variable iterates over: (next(&into_iter(S)) as Some).0 -> S"""
+    e = deep_strip(e)
+    if isinstance(e, tuple) and e and e[0] == "field" and e[2] == "0" and isinstance(e[1], tuple) and e[1][0] == "as":
+        nx = e[1][1]
+        if isinstance(nx, tuple) and nx[0] == "call" and nx[1].endswith("::next"):
+            it = deep_strip(nx[2][0])
+            if isinstance(it, tuple) and it[0] == "call" and it[1].endswith("into_iter"):
+                return deep_strip(it[2][0])
+    return None
+
+
+def arg_passed_as(fx, body, argidx, pred, _depth=0):
+    callers = fx.callers_of(lambda n: fx.body(n) is not None and fx.body(n).name == body.name)
+    if not callers or _depth > 3:
+        return False
+    for (cb, bb, t) in callers:
+        e = deep_strip(cb.expr(t["args"][argidx - 1], expand_named=True, at=bb))
+        if pred(e):
+            continue
+        if isinstance(e, tuple) and e[0] == "arg" and arg_passed_as(fx, cb, e[1], pred, _depth + 1):
+            continue
+        return False
+    return True
+
+
+def is_occ_all(e):
+    return isinstance(e, tuple) and e and e[0] == "call" and e[1].endswith("Board::occupancy") and is_game_board(e[2][0])
+
+
+def is_occ_theirs(e):
+    if isinstance(e, tuple) and e and e[0] == "call" and e[1].endswith("Board::occupancy_for") and is_game_board(e[2][0]):
+        p = deep_strip(e[2][1])
+        return isinstance(p, tuple) and p[0] == "call" and p[1].endswith("Player::other") and is_game_player(p[2][0])
+    return False
+
+
+def factor_is(fx, body, f, pred):
+    f = deep_strip(f)
+    if pred(f):
+        return True
+    if isinstance(f, tuple) and f and f[0] == "arg":
+        return arg_passed_as(fx, body, f[1], pred)
+    return False
+
+
+def has_their_pieces(fx, body, s):
+    return any(factor_is(fx, body, f, is_occ_theirs) for f in and_factors(s))
+
+
+def has_not_all_pieces(fx, body, s):
+    for f in and_factors(s):
+        f = deep_strip(f)
+        if isinstance(f, tuple) and f and f[0] == "call" and f[1].endswith("Not>::not") and factor_is(fx, body, f[2][0], is_occ_all):
+            return True
+    return False
+
+
+def rule_label(fx, rep):
+    ok = True
+    n = 0
+
+    def bad(key, msg, b, line):
+        nonlocal ok
+        ok = False
+        rep.violation("C01-LABEL", f"C01-LABEL/{key}", msg, {"fn": b.name, "file": b.file, "line": line})
+
+    promo = {"capture_promotion": [], "quiet_promotion": []}
+    seen = {}
+    for b in fx.fn_bodies():
+        if not norm(b.name).startswith("chess::movegen::gen::") or "::tests::" in b.name:
+            continue
+        for bb, t in b.calls():
+            cn = norm(callee_name(t) or "")
+            if not cn.startswith("chess::moves::Move::"):
+                continue
+            ctor = cn.split("::")[-1]
+            if ctor not in ("capture", "quiet", "capture_promotion", "quiet_promotion"):
+                continue
+            n += 1
+            src = b.expr(t["args"][0], expand_named=True, at=bb)
+            dst = b.expr(t["args"][1], expand_named=True, at=bb)
+            if ctor.endswith("promotion"):
+                promo[ctor].append((norm(b.name), enum_name_of(b.expr(t["args"][2], expand_named=True, at=bb)), t.get("line")))
+            dset = iter_source(dst)
+            good, why = False, ""
+            if ctor in ("capture", "capture_promotion"):
+                good = dset is not None and has_their_pieces(fx, b, dset)
+                why = "its destination set is not restricted to the opponent's pieces"
+            else:
+                if dset is not None:
+                    good = has_not_all_pieces(fx, b, dset)
+                    why = "its destination set is not restricted to empty squares"
+                else:
+                    # pawn pushes: dst = forward(..forward(pawn)) with pawn drawn from a set built from backward(!all_pieces & ..)
+                    d = deep_strip(dst)
+                    steps = 0
+                    while isinstance(d, tuple) and d and d[0] == "call" and d[1].endswith("Square::forward"):
+                        steps += 1
+                        d = deep_strip(d[2][0])
+                    pset = iter_source(d)
+                    if steps >= 1 and pset is not None:
+                        backs = [x for f in and_factors(pset) for x in walk(f) if isinstance(x, tuple) and x and x[0] == "call" and isinstance(x[1], str) and x[1].endswith("Bitboard::backward")]
+                        good = any(has_not_all_pieces(fx, b, deep_strip(x[2][0])) or any(has_not_all_pieces(fx, b, deep_strip(y[2][0])) for y in walk(x[2][0]) if isinstance(y, tuple) and y and y[0] == "call" and isinstance(y[1], str) and y[1].endswith("Bitboard::backward")) for x in backs)
+                        if good and steps == 2:
+                            # double push: the intermediate square must be empty as well
+                            good = any(isinstance(deep_strip(f), tuple) and deep_strip(f)[0] == "call" and deep_strip(f)[1].endswith("Not>::not") and
+                                       find_calls(deep_strip(f)[2][0], "Bitboard::backward") for f in and_factors(pset))
+                        why = "the square(s) in front of the pawn are not required to be empty"
+                    else:
+                        why = "its destination is not drawn from a set of empty squares"
+            rep.obligation(good)
+            k = f"{norm(b.name).split('::')[-1]}/{ctor}"
+            seen[k] = seen.get(k, 0) + 1
+            if not good:
+                bad(k + (f"/{seen[k]}" if seen[k] > 1 else ""), f"`{b.name}` line {t.get('line')} builds Move::{ctor} but {why}: a move would carry the wrong capture/quiet label (make_move and move ordering trust it)", b, t.get("line"))
+    rep.rule("C01-LABEL", n, 19, ok, "capture/quiet labels match the occupancy of the destination set")
+    # promotions: each of the four kinds exactly once per kind of promotion
+    ok2 = True
+    for ctor, lst in promo.items():
+        kinds = sorted(k for (_, k, _) in lst if k)
+        good = kinds == ["Bishop", "Knight", "Queen", "Rook"]
+        rep.obligation(good)
+        rep.sample({"rule": "C01-PROMO", "ctor": ctor, "sites": [(f.split("::")[-1], k) for (f, k, _) in lst]})
+        if not good:
+            ok2 = False
+            rep.violation("C01-PROMO", f"C01-PROMO/{ctor}", f"Move::{ctor} is generated for kinds {kinds}; every promoting pawn move must be listed exactly once for each of Queen, Rook, Knight, Bishop", {"file": "src/chess/movegen/gen.rs", "line": lst[0][2] if lst else None})
+    glm = fx.one("gen::generate_legal_moves")
+    good = len(glm.calls_to("gen::generate_captures")) == 1 and len(glm.calls_to("gen::generate_quiets")) == 1
+    rep.obligation(good)
+    if not good:
+        ok2 = False
+        rep.violation("C01-PROMO", "C01-PROMO/stages", "generate_legal_moves does not run the capture stage and the quiet stage exactly once each", {"fn": glm.name, "file": glm.file, "line": glm.line})
+    rep.rule("C01-PROMO", len(promo["capture_promotion"]) + len(promo["quiet_promotion"]) + 1, 9, ok2, "promotion kinds listed exactly once; both stages run once")
+
+
+def enum_name_of(e):
+    e = deep_strip(e)
+    if isinstance(e, tuple) and e and e[0] == "agg" and isinstance(e[1], str) and not e[2]:
+        return e[1].split("::")[-1]
+    return None
+
+
 GEN = "src/chess/movegen/gen.rs"
 MV = "src/chess/moves.rs"
 MUTANTS = [
@@ -666,6 +824,12 @@ MUTANTS = [
      "edits": [(MV, "            Flags::PromoteToBishop | Flags::CaptureAndPromoteToBishop => Some(Bishop),\n            Flags::PromoteToKnight | Flags::CaptureAndPromoteToKnight => Some(Knight),", "            Flags::PromoteToBishop => Some(Bishop),\n            Flags::PromoteToKnight | Flags::CaptureAndPromoteToKnight | Flags::CaptureAndPromoteToBishop => Some(Knight),")]},
     {"name": "in-check verdict asks about the other side", "expect": "C01-CHECK",
      "edits": [("src/chess/game.rs", "        self.board.king_in_check(self.player)", "        self.board.king_in_check(self.player.other())")]},
+    {"name": "knight captures drawn from all occupied squares (own pieces capturable)", "expect": "C01-LABEL",
+     "edits": [(GEN, "        let capture_destinations = destinations & their_pieces;\n        for dst in capture_destinations {\n            moves.push(Move::capture(knight, dst));", "        let capture_destinations = destinations & !(!their_pieces & !destinations);\n        for dst in capture_destinations {\n            moves.push(Move::capture(knight, dst));")]},
+    {"name": "king quiet moves labelled from the capture set", "expect": "C01-LABEL",
+     "edits": [(GEN, "    for dst in destinations & !all_pieces {\n        if attackers::generate_attackers_of(&board_without_king, game.player, dst).is_empty() {\n            moves.push(Move::quiet(king, dst));", "    for dst in destinations & (!all_pieces | game.board.occupancy_for(game.player.other())) {\n        if attackers::generate_attackers_of(&board_without_king, game.player, dst).is_empty() {\n            moves.push(Move::quiet(king, dst));")]},
+    {"name": "knight under-promotion listed in both stages", "expect": "C01-PROMO",
+     "edits": [(GEN, "            moves.push(Move::quiet_promotion(\n                pawn,\n                target,\n                PromotionPieceKind::Queen,\n            ));\n        }\n    }\n\n    // Non-promoting captures", "            moves.push(Move::quiet_promotion(\n                pawn,\n                target,\n                PromotionPieceKind::Queen,\n            ));\n            moves.push(Move::quiet_promotion(\n                pawn,\n                target,\n                PromotionPieceKind::Knight,\n            ));\n        }\n    }\n\n    // Non-promoting captures")]},
     {"name": "benign: rename scratch board and reorder removals", "benign": True,
      "edits": [(GEN, "                    board_without_en_passant_participants\n                        .remove_at(potential_en_passant_capture_start);\n                    board_without_en_passant_participants.remove_at(captured_pawn);\n",
                 "                    board_without_en_passant_participants.remove_at(captured_pawn);\n                    board_without_en_passant_participants\n                        .remove_at(potential_en_passant_capture_start);\n")]},
